@@ -128,7 +128,7 @@ def run(facts, res):
     # ------------------------------------------------------------------ H1 / H3
     work = [(b, bi, "direct") for (b, bi, t) in _raw_sites(facts)]
     n_direct = len(work)
-    res.floor("H3", "direct raw read sites outside backends", n_direct, 3)
+    res.floor("H3", "direct raw read sites outside backends", n_direct, 2)
     verified = 0
     copies = 0
     seen = set()
@@ -191,7 +191,7 @@ def run(facts, res):
                               "%s is public API and returns unverified storage bytes" % body.path, body.loc())
             for s in callers:
                 work.append((s.body, s.block, "via " + body.path))
-    res.floor("H1", "verified uses of raw bytes (pack load, object slice, block fetch)", verified, 3)
+    res.floor("H1", "verified uses of raw bytes (pack load, object slice, block fetch)", verified, 2)
     res.floor("H3", "foreign-item copy exception still anchored", copies, 1)
     res.note("pass-through wrappers: %s" % ", ".join(sorted(passthrough)))
 
@@ -307,7 +307,7 @@ def run(facts, res):
                                       "name aborts the open instead of being skipped" % (m.path, pp, rt), m.loc(t.line))
             res.instance("H5", "%s (called with listed names from %d site(s)): %d fallible conversion(s), none unwrapped" % (
                 m.path, len(sites), convs), m.loc())
-    res.floor("H5", "call sites that parse listed item names", n5, 3)
+    res.floor("H5", "call sites that parse listed item names", n5, 1)
 
 
 def peel_conv(t):
